@@ -25,6 +25,9 @@ func DerivePublic(priv []byte) (x, y []byte, err error) {
 
 	var pubBytes []byte
 	pubBytes = pub.Bytes_Unsafe()
+	if len(pubBytes) != 65 {
+		return nil, nil, errors.New("private key maps to the point at infinity")
+	}
 
 	return pubBytes[1:33], pubBytes[33:], nil
 }
